@@ -58,6 +58,14 @@ static int diff(const unsigned char *got, int k, const struct vp_ty *t) {
   return -1;
 }
 
+/* Dead stack below the driver is overwritten before every test, so that whatever a test reads from uninitialised
+ * stack (padding of gcc temporaries, a va_arg that walks into the wrong area) is the same in a batch run, in the
+ * isolated re-run and in the replay. */
+static void __attribute__((noinline)) scrub(void) {
+  volatile unsigned char pad[24576];
+  for (unsigned i = 0; i < sizeof pad; i++) pad[i] = 0xC7;
+}
+
 int main(int argc, char **argv) {
   static char altstack[65536];
   stack_t ss = { .ss_sp = altstack, .ss_size = sizeof altstack, .ss_flags = 0 };
@@ -89,6 +97,7 @@ int main(int argc, char **argv) {
     vp_t_calls = vp_t_bad = vp_t_misaligned = vp_t_depth = 0;
     vp_t_rax = 0;
     alarm(20);
+    scrub();
     VP_CALL[n][cfg]();
     alarm(0);
     tests++; calls += vp_t_calls;
@@ -97,7 +106,7 @@ int main(int argc, char **argv) {
     #define ADD(...) len += snprintf(line + len, sizeof line - len, __VA_ARGS__)
     if (vp_ncall != 1) ADD(" ncall=%d", vp_ncall);
     if (vp_nid != g->nid) ADD(" nid=%d", vp_nid);
-    if (vp_t_calls != 1 + g->nid) ADD(" tcalls=%d", vp_t_calls);
+    if (vp_t_calls != 2 + g->nid) ADD(" tcalls=%d", vp_t_calls);
     if (vp_t_bad) ADD(" bad=0x%x", vp_t_bad);
     for (int k = 0; k < g->nargs; k++) {
       int d = diff(vp_cap[k], k, &VP_TY[g->arg[k]]);
